@@ -303,10 +303,25 @@ def _rebind(obj, mod):
         g.__dict__.update(f.__dict__)
         g.__qualname__ = f.__qualname__
         return g
+    def redecorate(wrapper):
+        """msdm's own caching decorators (functools.wraps wrappers): rebuild the wrapper around the inner function rebound to the LIVE module globals,
+        so that facades patched into the module also reach decorated methods of a mutant"""
+        inner = getattr(wrapper, '__wrapped__', None)
+        code_name = getattr(getattr(wrapper, '__code__', None), 'co_qualname', '') or ''
+        if inner is None or not inspect.isfunction(inner):
+            return None
+        try:
+            from msdm.core.utils import funcutils
+        except Exception:
+            return None
+        if 'method_cache' in code_name:
+            return funcutils.method_cache(rb(inner))
+        if 'cached_property' in code_name:
+            return funcutils.cached_property(rb(inner))
+        return None
     if inspect.isfunction(obj):
         if hasattr(obj, '__wrapped__'):
-            # decorated (method_cache / functools.wraps): rebuild the wrapper around the rebound inner
-            return obj
+            return redecorate(obj) or obj
         return rb(obj)
     if isinstance(obj, staticmethod):
         return staticmethod(rb(obj.__func__))
@@ -315,7 +330,8 @@ def _rebind(obj, mod):
     if isinstance(obj, property):
         f = obj.fget
         if hasattr(f, '__wrapped__'):
-            return obj
+            r = redecorate(f)          # cached_property returns a property itself
+            return r if r is not None else obj
         return property(rb(f), obj.fset, obj.fdel)
     return obj
 
@@ -441,9 +457,10 @@ def main(argv=None):
 
     # ---- mutation sentinels (contract strength guard) --------------------------------------------
     sent_report = []
+    sent_limit = 6          # a sentinel re-runs at most this many of its tasks (patterns may match many)
     sentinels = [] if (no_sentinels or only) else getattr(mod, 'SENTINELS', [])
     for sent in sentinels:
-        sub = [t for t in tasks if t.name in sent.task_names]
+        sub = [t for t in tasks if t.name in sent.task_names or any(x.startswith('re:') and re.search(x[3:], t.name) for x in sent.task_names)][:sent_limit]
         if not sub:
             sent_report.append(dict(name=sent.name, status='skipped: tasks not in this tier'))
             continue
